@@ -63,7 +63,9 @@ def configs(draw, keepalive=False, priv_ext=True):
     cfg['priv_ext'] = draw(st.booleans()) if priv_ext else False
     # both sides offer TLS: the session runs through the endpoint's TLS socket paths (scripted pass-through socket
     # without certificates; 'records': reads hand data over record-wise, the rest stays pending inside the TLS object)
-    cfg['tls'] = draw(st.sampled_from([None, None, None, 'plain', 'records']))
+    # 'cert': as 'plain', and each side presents a certificate naming its address and node ID (the authentication
+    # results then show up in the session parameters)
+    cfg['tls'] = draw(st.sampled_from([None, None, None, 'plain', 'records', 'cert']))
     return cfg
 
 
@@ -179,13 +181,18 @@ def build_world(cfg):
     for side_kw, side_cfg in ((kw_a, cfg['a']), (kw_b, cfg['b'])):
         if side_cfg.get('target_ack') is not None:
             side_kw['modulate_target_ack_time'] = side_cfg['target_ack']
-    script = None
+    script_a = script_b = None
     if cfg.get('tls'):
-        script = {'records': cfg['tls'] == 'records'}
+        script_a = {'records': cfg['tls'] == 'records'}
+        script_b = dict(script_a)
+        if cfg['tls'] == 'cert':
+            # what A sees is B's certificate and the other way round (addresses as in tcpcl_world.World)
+            script_a['peer_cert_der'] = tw.make_cert(['ip-match', 'uri-match'], '10.0.0.2', 'dtn://node-b/')
+            script_b['peer_cert_der'] = tw.make_cert(['ip-match', 'uri-match'], '10.0.0.1', 'dtn://node-a/')
         for side_kw in (kw_a, kw_b):
-            side_kw.update(tls_enable=True, require_host_authn=False, require_node_authn=False)
+            side_kw.update(tls_enable=True, require_host_authn=cfg['tls'] == 'cert', require_node_authn=cfg['tls'] == 'cert')
     cap_ab, cap_ba = cfg.get('cap_ab'), cfg.get('cap_ba')
-    return tw.World(tw.make_config('dtn://node-a/', tls_script=script, **kw_a), tw.make_config('dtn://node-b/', tls_script=script, **kw_b),
+    return tw.World(tw.make_config('dtn://node-a/', tls_script=script_a, **kw_a), tw.make_config('dtn://node-b/', tls_script=script_b, **kw_b),
                     cap_ab=_tls_cap(cfg, cap_ab), cap_ba=_tls_cap(cfg, cap_ba))
 
 
